@@ -106,6 +106,15 @@ Proof. exact CGV.Compose.Statements.C01_cut_all_atom_step. Qed.
     edges unchanged) and the final relabelling: statements [cut_hydrogens], [cut_sorted] *)
 Definition C01_graph_level_hydrogens := CGV.Compose.Statements.C01_cut_hydrogens.
 Definition C01_graph_level_sorted := CGV.Compose.Statements.C01_cut_sorted.
+(** [cut_sorted] without its two side hypotheses: rebuild_h_atoms preserves wf_graph (symmetry, distinct keys) *)
+Definition C09_rebuild_preserves_wf := CGV.Compose.Statements.C09_rebuild_preserves_wf.
+Definition C01_graph_level_sorted_total := CGV.Compose.Statements.C01_cut_sorted_total.
+(** the per-run tie: when the executable tests pass on the IMPLEMENTATION's own templates, base graph and bonded
+    fine graph (clauses 121-123 of the check), the hypotheses of the graph-level theorem hold of those graphs and
+    the model run returns the skeleton; [run_fail] = 0 says exactly that all of them passed *)
+Definition C01_skeleton_test_sound := CGV.Compose.Statements.C01_skeleton_test_sound.
+Definition C01_run_check_sound := CGV.Compose.Statements.C01_run_check_sound.
+Definition C01_run_fail_zero := CGV.Compose.Statements.C01_run_fail_zero.
 (** the label discipline of a well-formed cut meets the hypotheses of C01_bonding_step *)
 Definition C01_cut_tables_dedicated := CGV.Compose.Statements.C01_cut_tables_dedicated.
 Definition C01_cut_tables_disjoint := CGV.Compose.Statements.C01_cut_tables_disjoint.
@@ -118,4 +127,9 @@ Print Assumptions C01_graph_level_skeleton.
 Print Assumptions C01_graph_level_all_atom_step.
 Print Assumptions C01_graph_level_hydrogens.
 Print Assumptions C01_graph_level_sorted.
+Print Assumptions C09_rebuild_preserves_wf.
+Print Assumptions C01_graph_level_sorted_total.
+Print Assumptions C01_skeleton_test_sound.
+Print Assumptions C01_run_check_sound.
+Print Assumptions C01_run_fail_zero.
 Print Assumptions C01_hypothesis_test_sound.
